@@ -606,12 +606,9 @@ func ruleP11(c *Ctx, id string) {
 		}
 		// the entry object made for this call, and the stores that link it: into a captured list variable or
 		// into the Nextentry field of the previous entry
-		isLink := func(in ssa.Instruction) bool {
+		linkStore := func(in ssa.Instruction, isEntry func(ssa.Value) bool) bool {
 			st, ok := in.(*ssa.Store)
-			if !ok {
-				return false
-			}
-			if _, isNew := stripConv(st.Val).(*ssa.Alloc); !isNew {
+			if !ok || !isEntry(stripConv(st.Val)) {
 				return false
 			}
 			if _, isFV := st.Addr.(*ssa.FreeVar); isFV {
@@ -619,6 +616,68 @@ func ruleP11(c *Ctx, id string) {
 			}
 			if fa, isFA := st.Addr.(*ssa.FieldAddr); isFA {
 				if n, f, _ := FieldOf(fa); n != nil && f == "Nextentry" {
+					return true
+				}
+			}
+			return false
+		}
+		isNew := func(v ssa.Value) bool { _, ok := v.(*ssa.Alloc); return ok }
+		isLink := func(in ssa.Instruction) bool {
+			if linkStore(in, isNew) {
+				return true
+			}
+			// the linking may be done by a local function that is handed the new entry
+			call, ok := in.(*ssa.Call)
+			if !ok {
+				return false
+			}
+			var g *ssa.Function
+			if f2, _ := closureCallee(call); f2 != nil {
+				g = f2
+			} else if sc2 := call.Call.StaticCallee(); sc2 != nil && isPrivateHelper(sc2) {
+				g = sc2
+			} else if ld, isL := call.Call.Value.(*ssa.UnOp); isL && ld.Op == token.MUL {
+				// a local function kept in a variable that the callback captured
+				var mcs []*ssa.MakeClosure
+				sts := cellStores(ld.X)
+				for _, st := range sts {
+					if mc, isMC := st.Val.(*ssa.MakeClosure); isMC {
+						mcs = append(mcs, mc)
+					}
+				}
+				if len(sts) == 1 && len(mcs) == 1 {
+					g, _ = mcs[0].Fn.(*ssa.Function)
+				}
+			} else if fv, isFV := call.Call.Value.(*ssa.FreeVar); isFV {
+				// ... captured by value: the closure the enclosing function bound
+				cf := fv.Parent()
+				for i, q := range cf.FreeVars {
+					if q != fv || cf.Parent() == nil {
+						continue
+					}
+					for _, b2 := range cf.Parent().Blocks {
+						for _, in2 := range b2.Instrs {
+							if mc, isMC := in2.(*ssa.MakeClosure); isMC && mc.Fn == ssa.Value(cf) && i < len(mc.Bindings) {
+								if inner, isIn := mc.Bindings[i].(*ssa.MakeClosure); isIn {
+									g, _ = inner.Fn.(*ssa.Function)
+								}
+							}
+						}
+					}
+				}
+			}
+			if g == nil || g.Blocks == nil {
+				return false
+			}
+			for i, a := range call.Call.Args {
+				if !isNew(stripConv(a)) || i >= len(g.Params) {
+					continue
+				}
+				pm := g.Params[i]
+				isP := func(v ssa.Value) bool { return v == ssa.Value(pm) }
+				ls2 := func(x ssa.Instruction) bool { return linkStore(x, isP) }
+				e0 := g.Blocks[0].Instrs[0]
+				if ls2(e0) || MustAfter(g, ls2, nil)(e0) {
 					return true
 				}
 			}
